@@ -69,6 +69,19 @@ func (d *Decoder) ReadPointerFlag() (byte, error) {
 	return firstByte, nil
 }
 
+// ReadBool reads the octet of a boolean or of the presence flag of an optional
+// value. Only 0 and 1 are encodings; any other octet is rejected.
+func (d *Decoder) ReadBool() (bool, error) {
+	b, err := d.buf.ReadByte()
+	if err != nil {
+		return false, err
+	}
+	if b > 1 {
+		return false, fmt.Errorf("invalid boolean / optional flag octet %#x", b)
+	}
+	return b == 1, nil
+}
+
 func (d *Decoder) ReadLegnthFlag() (byte, error) {
 	cLog(Cyan, "Reading length flag")
 	firstByte, err := d.buf.ReadByte()
